@@ -1,0 +1,39 @@
+//! Verification hooks (compiled only with `--cfg kahflane_turdb_verif`).
+//!
+//! `sched_point(site)` marks a boundary between two atomic steps of a concurrent protocol
+//! (never inside a mutex critical section); `io_event(..)` reports an operation that reaches
+//! the operating system. Both call a process-global callback installed by the verification
+//! harness and do nothing when none is installed.
+use parking_lot::RwLock;
+use std::path::Path;
+use std::sync::Arc;
+
+pub type SchedHook = Arc<dyn Fn(u32) + Send + Sync>;
+pub type IoHook = Arc<dyn Fn(u32, &Path, u64, u64) + Send + Sync>;
+
+static SCHED_HOOK: RwLock<Option<SchedHook>> = RwLock::new(None);
+static IO_HOOK: RwLock<Option<IoHook>> = RwLock::new(None);
+
+pub fn set_sched_hook(hook: Option<SchedHook>) {
+    *SCHED_HOOK.write() = hook;
+}
+
+pub fn set_io_hook(hook: Option<IoHook>) {
+    *IO_HOOK.write() = hook;
+}
+
+#[inline]
+pub fn sched_point(site: u32) {
+    let hook = SCHED_HOOK.read().clone();
+    if let Some(hook) = hook {
+        hook(site);
+    }
+}
+
+#[inline]
+pub fn io_event(kind: u32, path: &Path, a: u64, b: u64) {
+    let hook = IO_HOOK.read().clone();
+    if let Some(hook) = hook {
+        hook(kind, path, a, b);
+    }
+}
